@@ -153,12 +153,16 @@ static double raw_sample(vh::Rng & r, const ValueGen & g)
 }
 
 // draws until the truncation of the sample is unambiguous; v = exact trunc(x*m)
+static uint64_t g_samples = 0, g_redraws = 0, g_fallbacks = 0;
 static double sample(vh::Rng & r, const ValueGen & g, long long & v)
 {
+  ++g_samples;
   for (int i = 0; i < 200; ++i) {
     double x = raw_sample(r, g);
     if (exact_trunc(x, g.m, v)) {return x;}
+    ++g_redraws;
   }
+  ++g_fallbacks;
   v = 0;
   return 0.0;
 }
@@ -503,11 +507,11 @@ static void exhaustive_case(vh::Ctx & c, vh::Rng & r, uint64_t idx)
     bool ok;
     if (combo.cls == 2) {
       ok = run_ring_typed(c, rtype, combo.W, ops, cat, hf);
-      note_facts(c, hf, "ring");
+      note_facts(c, hf, "exh_ring");
     } else {
       StatCfg s{combo.cls == 1, combo.W, prec, via_set, cat};
       ok = run_stats(c, s, ops, hf);
-      note_facts(c, hf, combo.cls == 1 ? "variance" : "average");
+      note_facts(c, hf, combo.cls == 1 ? "exh_variance" : "exh_average");
     }
     c.count("exhaustive_sequences");
     if (!ok) {return;}
@@ -588,5 +592,9 @@ static void one_case(vh::Ctx & c, uint64_t idx)
 
 int main(int argc, char ** argv)
 {
-  return vh::run(argc, argv, "C16", {20000, 5000000}, one_case);
+  return vh::run(argc, argv, "C16", {20000, 5000000}, one_case, [](vh::Ctx & c) {
+      c.count("samples_generated", g_samples);
+      c.count("samples_redrawn_ambiguous_or_out_of_domain", g_redraws);
+      c.count("samples_replaced_by_zero_after_200_redraws", g_fallbacks);
+    });
 }
